@@ -101,6 +101,10 @@ pub fn generated_sources(r: &mut Rng, n: usize) -> Vec<(String, String)> {
             out.push((format!("gen{k}-plural"), plural_source(r)));
             continue;
         }
+        if k % 6 == 0 {
+            out.push((format!("gen{k}-alike"), alike_source(r)));
+            continue;
+        }
         let t = match r.below(3) {
             0 => crate::resolvep::template(r.below(5) as usize, r.below(4) as usize),
             1 => crate::resolvep::min_utxo_template(r.below(4) as usize),
@@ -109,6 +113,20 @@ pub fn generated_sources(r: &mut Rng, n: usize) -> Vec<(String, String)> {
         out.push((format!("gen{k}"), t.src));
     }
     out
+}
+
+/// Programs that give the same names (a policy, an asset, a record, a transaction) different contents: what one of
+/// them lowers to must not depend on which of the others was lowered before it in the same process.
+pub fn alike_source(r: &mut Rng) -> String {
+    let h = *r.pick(&[0x11u8, 0x22, 0x33]);
+    let tk = *r.pick(&["TK", "TQ"]);
+    let (bty, bval) = *r.pick(&[("Bytes", "0xab"), ("Int", "7")]);
+    let tok = format!("AnyAsset(Pol, \"{tk}\", quantity)");
+    let mint = if r.chance(1, 2) { format!("    mint {{\n        amount: {tok},\n        redeemer: (),\n    }}\n") } else { String::new() };
+    format!(
+        "party Sender;\nparty Receiver;\npolicy Pol = 0x{};\ntype R {{\n    a: Int,\n    b: {bty},\n}}\n\ntx t(quantity: Int) {{\n    input source {{\n        from: Sender,\n        min_amount: Ada(quantity) + fees,\n    }}\n{mint}    output {{\n        to: Receiver,\n        amount: source - fees + {tok},\n        datum: R {{ a: quantity, b: {bval}, }},\n    }}\n}}\n",
+        hx(&[h; 28])
+    )
 }
 
 /// Chain-specific directives with several fields (where hash order used to leak).
@@ -445,6 +463,35 @@ fn garbage_child_body(opts: &Opts) -> String {
         })
         .collect();
     let bombs = typed_bomb_parts(&valid_tx_for_bombs(&mut g));
+    // inflated-count sweep: a real encoding that holds every kind of container (a directive with three fields
+    // among them); at every offset that reads as a short array or map header in turn, the header announces a
+    // huge number of entries instead (whoever pre-allocates from the announced count must cap it)
+    {
+        let mut base = valid_tx_for_bombs(&mut g);
+        base.adhoc.push(adhoc(
+            "withdrawal",
+            vec![("credential", tir::Expression::Bytes(vec![1; 28])), ("amount", tir::Expression::Number(5)), ("redeemer", tir::Expression::None)],
+        ));
+        base.metadata.push(tir::Metadata { key: tir::Expression::Number(1), value: tir::Expression::String("m".into()) });
+        let enc = encoding::to_bytes(&base).0;
+        let counts: [u64; 3] = [1 << 61, u64::MAX, 1 << 63];
+        let which = (opts.seed % 3) as usize;
+        for at in 0..enc.len() {
+            let b = enc[at];
+            let major = b >> 5;
+            if (major == 4 || major == 5) && (b & 31) < 24 {
+                let mut v = enc[..at].to_vec();
+                v.push((major << 5) | 27);
+                v.extend_from_slice(&counts[which].to_be_bytes());
+                v.extend_from_slice(&enc[at + 1..]);
+                match guarded(|| encoding::from_bytes(&v, TirVersion::V1Beta0)) {
+                    Ok(Ok(_)) => ok += 1,
+                    Ok(Err(_)) => err += 1,
+                    Err(site) => panics.push(site),
+                }
+            }
+        }
+    }
     for k in 0..opts.n {
         let bytes: Vec<u8> = match k % 7 {
             0 => {
@@ -581,7 +628,7 @@ pub fn run_c18(opts: &Opts, out: &mut Emitter) {
             // fresh processes (new hash seeds): this binary, child mode
             let mut cross: std::collections::BTreeSet<String> = Default::default();
             let exe = std::env::current_exe().unwrap();
-            let procs = if k % 4 == 0 || opts.thorough { 3 } else { 0 };
+            let procs = if k % 4 == 0 || opts.thorough || name.ends_with("-alike") { 3 } else { 0 };
             let tmp = std::env::temp_dir().join(format!("tx3verif-{}-{k}.tx3", std::process::id()));
             if procs > 0 {
                 let _ = std::fs::write(&tmp, src);
@@ -815,7 +862,47 @@ pub fn run_c17(opts: &Opts, out: &mut Emitter) {
                             let keys = |x: &Value| -> Vec<String> {
                                 x.get("properties").and_then(|p| p.as_object()).map(|o| o.keys().cloned().collect()).unwrap_or_default()
                             };
-                            txs.push(json!({"name": name, "params": keys(&t["params"]), "ir_params": ir_params, "decodes_to_lowered": same_as_lower}));
+                            // a client that supplies precisely what the file declares: the transaction's parameters and the
+                            // parties as arguments, the environment entries under `env`, through the server's own request
+                            // reader; afterwards the template must be closed
+                            let request = {
+                                let val = |k: &str| -> Value {
+                                    if k.contains("policy") { json!("0xabcdef12") } else { json!(1) }
+                                };
+                                let mut args = serde_json::Map::new();
+                                for k in keys(&t["params"]) {
+                                    args.insert(k.clone(), val(&k));
+                                }
+                                if let Some(ps) = v.get("parties").and_then(|p| p.as_object()) {
+                                    for k in ps.keys() {
+                                        args.insert(k.clone(), json!(hx(&[0x60; 29])));
+                                    }
+                                }
+                                let mut env = serde_json::Map::new();
+                                if let Some(es) = v.get("environment").and_then(|e| e.get("properties")).and_then(|p| p.as_object()) {
+                                    for k in es.keys() {
+                                        env.insert(k.clone(), val(k));
+                                    }
+                                }
+                                let req = json!({"tir": t["tir"].clone(), "args": args, "env": env});
+                                match serde_json::from_value::<tx3_resolver::trp::ResolveParams>(req) {
+                                    Err(e) => json!({"bad_request": e.to_string().chars().take(80).collect::<String>()}),
+                                    Ok(p) => match guarded(|| tx3_resolver::trp::parse_resolve_request(p)) {
+                                        Ok(Ok((tir_any, m))) => {
+                                            let kept: Vec<String> = m.keys().cloned().collect();
+                                            let remaining: Value = match guarded(|| tx3_tir::reduce::apply_args(tir_any, &m)) {
+                                                Ok(Ok(applied)) => json!(tx3_tir::reduce::find_params(&applied).keys().cloned().collect::<Vec<_>>()),
+                                                Ok(Err(e)) => json!({"err": e.to_string().chars().take(60).collect::<String>()}),
+                                                Err(site) => json!({"panic": site}),
+                                            };
+                                            json!({"kept": kept, "remaining": remaining})
+                                        }
+                                        Ok(Err(e)) => json!({"err": e.to_string().chars().take(80).collect::<String>()}),
+                                        Err(site) => json!({"panic": site}),
+                                    },
+                                }
+                            };
+                            txs.push(json!({"name": name, "params": keys(&t["params"]), "ir_params": ir_params, "decodes_to_lowered": same_as_lower, "request": request}));
                         }
                     }
                     tii_json = json!({
